@@ -551,4 +551,8 @@ for _l in R.lemmas.values():
     if _l.replay == 'GENERIC':
         _l.replay = generic_replay(_l.func, [_sys.modules[__name__]])
 
+for _lid in ['L13.1', 'L13.2', 'L13.3']:
+    if _lid in R.lemmas:
+        R.lemmas[_lid].api = True
+
 get_harness = R.get_harness
